@@ -15,9 +15,10 @@ func init() { register("C06", c06) }
 func c06(r *core.Run) {
 	r.Expl = "C06 (corrupted files never crash a reader and stay contained): decides the guard structure a crash-free reader needs — (1) in readBlocksAndEvaluate: the IPv4 entry count read from the metadata is compared with the entry count of the counter columns on a branch that marks the block broken; every use of disk-derived counts as index / slice bound / loop bound lies behind the 'block broken -> count it, continue' gate; every statement that marks a block broken reaches a gate that increments BlocksCorrupted; the flag is never cleared; a column read error is contained in the block (tested, no return); (2) every call of GPDir.TimeRange (which indexes the first and last block) is dominated by a 'has blocks' test; (3) no Decompress takes &x[0] of a possibly empty parameter (cgo build); (4) metadata decoding is behind both size guards whose constants cover what is read (from the code); ReadBlockAtIndex checks the decoded length and chooses the decoder from the block's type byte, and encoder.New rejects unknown type bytes with an error; (5) workload.Stats.Add propagates every counter exactly once. NOT decided: absence of crashes for all byte-level mutations (needs bounds reasoning over arithmetic / fuzzing), hangs, exactness of undamaged days. Observation (not armed): a day whose metadata cannot be opened aborts the whole query with an error rather than being skipped."
 	r.Floor = 40
-	r.Rules = append(r.Rules, "broken-block-gate (CFG dominance)", "has-blocks-guard (Engler contradiction)", "encoder-contract(&x[0])", "decode-guards", "read-path", "encoder-table", "field-coverage")
+	r.Rules = append(r.Rules, "broken-block-gate (CFG dominance)", "contained-error-does-not-escape", "has-blocks-guard (Engler contradiction)", "encoder-contract(&x[0])", "decode-guards", "read-path", "encoder-table", "field-coverage")
 	p := r.Prog("cgo")
 	c06Gate(r, p)
+	c06Contained(r, p)
 	c06TimeRange(r, p)
 	ruleCodecLayout(r, p)
 	ruleReadPath(r, p)
@@ -26,6 +27,73 @@ func c06(r *core.Run) {
 	for _, rel := range []string{"pkg/goDB/encoder/lz4", "pkg/goDB/encoder/zstd", "pkg/goDB/encoder/null"} {
 		ruleEncoderContract(r, p, rel)
 	}
+}
+
+// c06Contained: an error that the evaluation loop contains (the block is counted as corrupted and skipped) must not reach the
+// caller later through the variable it was stored in: a return after the loop that hands back a variable which is assigned
+// from a contained call inside the loop returns the stale error of the last damaged block, and the caller aborts the query.
+func c06Contained(r *core.Run, p *core.Prog) {
+	const rule = "contained-error-does-not-escape"
+	f := r.MustFunc(rule, pkgGoDB, "DBWorkManager.readBlocksAndEvaluate")
+	if f == nil {
+		return
+	}
+	info := f.Info()
+	var loop *ast.RangeStmt
+	for _, st := range f.Decl.Body.List {
+		if rs, ok := st.(*ast.RangeStmt); ok {
+			loop = rs
+		}
+	}
+	if loop == nil {
+		r.Undecided(rule, "readBlocksAndEvaluate:block-loop", p.Rel(f.Decl.Pos()), "no top-level range loop over the blocks")
+		return
+	}
+	// error variables assigned from calls inside the loop whose failure does not leave the function
+	contained := map[types.Object]string{}
+	n := 0
+	core.Walk(loop.Body, false, func(x ast.Node) bool {
+		a, ok := x.(*ast.AssignStmt)
+		if !ok || len(a.Rhs) != 1 {
+			return true
+		}
+		c, isCall := ast.Unparen(a.Rhs[0]).(*ast.CallExpr)
+		if !isCall {
+			return true
+		}
+		for _, l := range a.Lhs {
+			o, isVar := core.ObjOf(info, l).(*types.Var)
+			if !isVar || !core.IsErrorType(o.Type()) {
+				continue
+			}
+			n++
+			use, _ := core.ErrDisposition(info, f.Decl.Body, c)
+			if use != core.ErrReturned {
+				contained[o] = core.Str(c.Fun) + " at " + p.Rel(c.Pos())
+			}
+		}
+		return true
+	})
+	bad := ""
+	core.Walk(f.Decl.Body, false, func(x ast.Node) bool {
+		rs, ok := x.(*ast.ReturnStmt)
+		if !ok || (rs.Pos() >= loop.Pos() && rs.End() <= loop.End()) || rs.Pos() < loop.Pos() {
+			return true
+		}
+		for _, res := range rs.Results {
+			if o := core.ObjOf(info, res); o != nil {
+				if src, isC := contained[o]; isC {
+					bad = fmt.Sprintf("%s returns %s, which still holds the error of the last block whose %s failed: a damaged last block of a day makes the whole query fail", p.Rel(rs.Pos()), o.Name(), src)
+				}
+			}
+		}
+		return true
+	})
+	if n == 0 {
+		r.Undecided(rule, "readBlocksAndEvaluate:loop-errors", p.Rel(loop.Pos()), "no error-producing call found in the block loop")
+		return
+	}
+	r.Check(rule, "readBlocksAndEvaluate:returns-after-loop", p.Rel(f.Decl.Pos()), bad == "", bad)
 }
 
 func c06Gate(r *core.Run, p *core.Prog) {
